@@ -202,6 +202,8 @@ func TestRandom(t *testing.T) {
 			sent := 0
 			holdName, holdReq := holdNames[ci%len(holdNames)], 1+(ci/len(holdNames))%3
 			holdActive, holdReleased := false, false
+			holdEarly := (ci/(3*len(holdNames)))%2 == 1 // release as soon as a request reusing the tag is queued behind it
+			prefTag = 0
 			if rc.Hold {
 				k.C.Emit(Event{"ev": "note", "what": fmt.Sprintf("hold %s of request %d", holdName, holdReq)})
 			}
@@ -237,8 +239,20 @@ func TestRandom(t *testing.T) {
 						}
 						f = append(f, st)
 					}
-					if holdActive && len(f) == 0 && next == nil {
-						holdReleased = true // nothing else can happen: the delayed goroutine goes on
+					prefTag = 0
+					if holdActive && holdReq-1 < len(m.tag) && holdReq >= 1 {
+						prefTag = m.tag[holdReq-1]
+					}
+					successor := false // a later request under the delayed request's tag has been received
+					if holdEarly && holdActive && holdReq >= 1 && holdReq-1 < len(m.tag) {
+						for r := holdReq; r < len(m.tag); r++ {
+							if m.tag[r] == m.tag[holdReq-1] && m.kind[r] != "Flush" {
+								successor = true
+							}
+						}
+					}
+					if holdActive && ((len(f) == 0 && next == nil) || successor) {
+						holdReleased = true // nothing else can happen (or its successor is queued): the delayed goroutine goes on
 					} else {
 						en = f
 					}
@@ -373,10 +387,16 @@ func (k *Case) writingReq(r int) bool {
 	return k.ch.Writing
 }
 
+// prefTag: in hold mode, the tag of the delayed request; once the client may use it again it often does
+var prefTag int
+
 func randomRequest(rng *rand.Rand, m *clientModel, cfg Cfg, rc RandCfg) []any {
 	for try := 0; try < 20; try++ {
 		kind := rc.Kinds[rng.Intn(len(rc.Kinds))]
 		tag := 1 + rng.Intn(cfg.NT)
+		if prefTag > 0 && prefTag <= cfg.NT && try < 3 && rng.Intn(2) == 0 {
+			tag = prefTag
+		}
 		if kind == "Version" {
 			return []any{"Recv", "Version", cfg.NoTag, 0, 0, 0}
 		}
